@@ -76,6 +76,17 @@ theorem cauerI_realises_ratfun (fuel : Nat) (N D : List K) (cs : List (K × Nat)
     net.Z env.x = Poly.eval N env.x / Poly.eval D env.x := by
   rw [cauerI_realises env.x cs net h hl, ← cfExpr_eq_cfVal, cf_value fuel N D cs env hc hdef]
 
+/-- **cauerII_realises**: with the coefficients `q·x^(−k)` of `(1/Z).continued_fraction_inverse_coeffs()`
+    the ladder `cauerII` builds has ADMITTANCE `c0 + 1/(c1 + 1/(c2 + …))`.  (How the inverse coefficients are
+    generated is not modelled; the oracle checks `as_continued_fraction_inverse` in C11 and the impedance of
+    the returned network here.) -/
+theorem cauerII_realises (x : K) (cs : List (K × Nat)) (net : Net K)
+    (h : cauerII true true cs = some (some net)) (hdef : LadderDefined true x cs) (hz : net.Z x ≠ 0) :
+    1 / net.Z x = cfVal true x cs := by
+  have hne : cs ≠ [] := by rintro rfl; simp [cauerII] at h
+  exact (cauerII_value x cs true true (some net) h hne).1 rfl
+example : ∃ net, cauerII true true ([(0, 0), (2, 1), (3, 0)] : List (ℚ × Nat)) = some (some net) := ⟨_, rfl⟩
+
 /-- a coefficient that is neither a constant nor proportional to `var` makes `cauerI` raise -/
 theorem cauerI_rejects (q : K) (k : Nat) (hk : 2 ≤ k) (hq : q ≠ 0) (rest : List (K × Nat)) (even : Bool) :
     cauerI even ((q, k) :: rest) = none := by
